@@ -625,6 +625,15 @@ pub fn dec_async<F: Family>(b: &[u8]) -> (Result<F::Packet, F::Error>, usize) {
     (res, b.len() - r.len())
 }
 
+/// the async decoder over a transport that delivers `k` bytes per read (k >= 1), with a Pending before every third read
+pub fn dec_async_chunked<F: Family>(b: &[u8], k: usize) -> (Result<F::Packet, F::Error>, usize) {
+    let n = b.len() / k.max(1) + 2;
+    let steps: Vec<Step> = (0..n + n / 3 + 2).map(|i| if i % 4 == 3 { Step::Pending } else { Step::Chunk(k.max(1)) }).collect();
+    let mut rd = ScriptedReader::new(b, &steps);
+    let (res, _) = sio::drive(F::decode_async(&mut rd), b.len() + steps.len() + 16);
+    (res, rd.pos)
+}
+
 #[derive(Debug, Clone, PartialEq)]
 pub struct PollOk<P> {
     pub total: usize,
